@@ -63,6 +63,7 @@ def _exempt(rel, qn, p):
 def check(ctx):
     key_inputs(ctx)
     name_overrides(ctx)
+    aux_key_names(ctx)
     _expr_token(ctx)
     # dask/tokenize.py is an anchor of this property: the injectivity rules of C12 are part of it
     from . import C12
@@ -134,6 +135,58 @@ def name_overrides(ctx, prefixes=("dask/dataframe/dask_expr/", "dask/array/_arra
     ctx.count("name_overrides", n_names)
     ctx.floor("name_overrides", floor, "`_name` overrides in expression classes")
 
+
+
+OWN_TOKEN_SOURCES = ("self._name", "deterministic_token", "self._token", "tokenize(", "uuid", "always_new_token")
+
+
+def aux_key_names(ctx, prefixes=("dask/dataframe/dask_expr/", "dask/array/_array_expr/"), floor=18):
+    """N1.aux-key: names that a `_layer` method invents for its helper tasks (f-strings) carry the
+    expression's own token (self._name / deterministic_token / a fresh tokenize or uuid) -- through local
+    definitions if need be.  A helper name built from an *input's* name only is shared by every expression
+    over that input: two different operations on the same frame then overwrite each other's helper tasks."""
+    model = ctx.model
+    n = 0
+    for rel in model.package_files("dask"):
+        if not any(rel.startswith(p_) for p_ in prefixes):
+            continue
+        mod = model.module(rel)
+        for qn, f in mod.functions():
+            if not qn.endswith("._layer"):
+                continue
+            for st in ast.walk(f):
+                if not isinstance(st, ast.JoinedStr):
+                    continue
+                host = enclosing_stmt(st)
+                if isinstance(host, (ast.Raise, ast.Assert)) or any(isinstance(p_, ast.Call) and call_name(p_) in ("ValueError", "RuntimeError", "TypeError", "NotImplementedError", "warnings.warn") for p_ in _parents(st)):
+                    continue
+                vals = [v.value for v in st.values if isinstance(v, ast.FormattedValue)]
+                if not vals:
+                    continue
+                n += 1
+
+                def tainted(e, at, depth=4):
+                    u = unparse(e)
+                    if any(s_ in u for s_ in OWN_TOKEN_SOURCES):
+                        return True
+                    if depth <= 0:
+                        return False
+                    for nm in [x for x in ast.walk(e) if isinstance(x, ast.Name) and isinstance(x.ctx, ast.Load)]:
+                        for _, val, dst in reaching_of(f).reaching(at, nm.id):
+                            if isinstance(val, ast.AST) and tainted(val, dst, depth - 1):
+                                return True
+                    return False
+                ok = any(tainted(v, host) for v in vals)
+                ctx.ob("N1.aux-key", st, f"{qn}: helper key `{unparse(st)[:60]}` carries the expression's own token", ok, "" if ok else "the helper tasks are named after an input only: another expression over the same input uses the same keys and one of them is overwritten when both are in a graph")
+    ctx.count("aux_key_names", n)
+    ctx.floor("aux_key_names", floor, "f-string key names in _layer methods")
+
+
+def _parents(node):
+    p = getattr(node, "_parent", None)
+    while p is not None and not isinstance(p, ast.stmt):
+        yield p
+        p = getattr(p, "_parent", None)
 
 
 def _expr_token(ctx):
